@@ -127,7 +127,7 @@ def main():
     print("MANIFEST.json written:", len(checks), "checks,", len(na), "not claimed")
 
 
-HOOK_COMMITS = ["d99ec3b", "25e3dcc", "8003572", "c454b84", "cc39578", "d991728"]
+HOOK_COMMITS = ["d99ec3b", "25e3dcc", "8003572", "c454b84", "cc39578", "d991728", "db5df73", "6698297"]
 
 if __name__ == "__main__":
     main()
